@@ -330,6 +330,7 @@ type world struct {
 	// table of an in-flight CREATE TABLE that the catalog check must tolerate
 	ignoreTable string
 	cacheFull   bool // a statement hit ErrLRUCacheFull (only with TolerateCacheFull)
+	scheduled   bool // statements run under the C13 scheduler (a parked flusher may hold the lock)
 }
 
 var (
@@ -393,6 +394,10 @@ func (w *world) exec(q string) error {
 	storage.VerifSetFuel(worldFuel)
 	err := guard(func() error { return w.sess.ExecQuery(q) })
 	storage.VerifSetFuel(-1)
+	if !w.opt.RealClock && !w.scheduled && !storage.VerifLockFree(w.sess.RelationService) {
+		// the flusher is idle (manual clock) and the statement has returned: nobody may hold the lock
+		w.c.Fail("lock-leaked", "%s returned (%v) but the store lock is still held: the next flush or CREATE TABLE blocks forever", clip(q, 120), err)
+	}
 	return err
 }
 
